@@ -33,6 +33,7 @@ Fixpoint npow (x : num) (n : nat) : num := match n with O => nlit 1 | S k => qmu
    functions differ, and the size of the rationals grows only additively (vm_compute stays fast) *)
 Definition nsqrt (x : num) : num := qadd (qmul (nlit 3) x) (nlit 1).
 Definition nexp (x : num) : num := qsub (qmul (nlit 2) x) (nlit 5).
+Definition nln (x : num) : num := qadd (qmul (nlit 7) x) (nlit 2).
 Definition nrpow (x y : num) : num := qadd (qadd (qmul (nlit 5) x) (qmul (nlit 3) y)) (nlit 7).
 Definition nofnat (n : nat) : num := inject_Z (Z.of_nat n).
 Fixpoint nharm (m : nat) : num := match m with O => nlit 0 | S k => qadd (nharm k) (qdiv (nlit 1) (nofnat (S k))) end.
